@@ -46,8 +46,9 @@ class DiscreteTimeDomainSequence(DiscreteTimeDomain, Sequence):
         vals = self.vals
         N = len(vals)
         for ni in range(N):
-            result = z**(-self.n[ni]) * vals[ni].expr
-            result = result.change(result, domain='Z')
+            # Keep the quantity (and units) of the element
+            result = vals[ni].change(z.sympy**(-self.n[ni]) * vals[ni].sympy,
+                                     domain='Z')
             results.append(result)
         return self.change(results, domain='Z', ni=self.n)
 
